@@ -41,6 +41,17 @@ pub fn run(rep: &mut StageReport, tier: &str, seed: u64) {
     ] {
         pairs.push((a.to_string(), b.to_string()));
     }
+    // letters outside ASCII (the statement's "letters"; the reference predicate tolerates either verdict for them, but
+    // the server must give the *same* verdict as the parser): 2-, 3- and 4-byte letters at the length bounds
+    for ch in ['é', '中', '𐐀', '𝒜', '𠀀'] {
+        for (na, nb) in [(3usize, 3usize), (64, 64), (64, 63), (63, 64), (64, 3), (3, 64), (49, 48), (65, 3), (2, 3)] {
+            pairs.push((std::iter::repeat(ch).take(na).collect(), std::iter::repeat(ch).take(nb).collect()));
+        }
+        pairs.push((format!("abcde{}", ch), "topic".to_string()));
+        pairs.push((format!("seliu{}", ch), "topic".to_string()));
+        pairs.push(("topic".to_string(), format!("abcde{}", ch)));
+        pairs.push((format!("{}abcde", ch), format!("{}{}{}", ch, ch, ch)));
+    }
     pairs.push(("x".repeat(64), "y".repeat(64)));
     pairs.push(("x".repeat(65), "y".repeat(3)));
     pairs.push(("x".repeat(3), "y".repeat(65)));
@@ -194,7 +205,21 @@ pub fn run(rep: &mut StageReport, tier: &str, seed: u64) {
             // refused because the topic already exists with the other messaging pattern: the name itself passed
             (Zone::MustAccept, Ok(Some(Frame::Error(e)))) if e.code == selium_protocol::error_codes::TOPIC_KIND_MISMATCH => None,
             (Zone::MustAccept, other) => Some(("valid-name-refused".into(), format!("valid wire name ({:?},{:?}) registered as {}: got {:?}", ns, tp, kinds[kind], other))),
-            (Zone::Tolerated, Ok(Some(Frame::Ok))) | (Zone::Tolerated, Ok(Some(Frame::Error(_)))) => None,
+            // tolerated zone: either verdict satisfies the grammar clause, but "the server applies the same rule": its
+            // verdict must be the parser's
+            (Zone::Tolerated, Ok(Some(Frame::Ok))) | (Zone::Tolerated, Ok(Some(Frame::Error(_)))) => {
+                let parser_accepts = TopicName::try_from(format!("/{}/{}", ns, tp).as_str()).is_ok();
+                let server_accepts = match &r {
+                    Ok(Some(Frame::Ok)) => true,
+                    Ok(Some(Frame::Error(e))) if e.code == selium_protocol::error_codes::TOPIC_KIND_MISMATCH => true,
+                    _ => false,
+                };
+                if parser_accepts == server_accepts {
+                    None
+                } else {
+                    Some(("server-and-parser-disagree".into(), format!("wire name ({:?},{:?}) ({} + {} bytes) registered as {}: TopicName::try_from {} it, the server answered {}", ns, tp, ns.len(), tp.len(), kinds[kind], if parser_accepts { "accepts" } else { "rejects" }, match &r { Ok(Some(Frame::Ok)) => "Ok".to_string(), Ok(Some(Frame::Error(e))) => format!("Error(code {})", e.code), o => format!("{:?}", o) })))
+                }
+            }
             (Zone::Tolerated, other) => Some(("name-not-answered".into(), format!("wire name ({:?},{:?}): got {:?}", ns, tp, other))),
         };
         match verdict {
